@@ -18,6 +18,8 @@ def INCLUDE(name):
 
 def replay(ob):
     n = ob["name"]
+    if n.startswith("C09.ir_utils."):
+        return HEAD + "main(['slice_unknown_dims', 'expand_unknown_dims'])\n"
     if "folding.shape." in n:
         return HEAD + "main(['shape_search'])\n"
     if "folding." in n and "any_rank" in n:
@@ -33,7 +35,7 @@ def replay(ob):
     if ".add." in n:
         return HEAD + "main(['abs_add'])\n"
     if "MaterializeReshapeShape" in n:
-        return HEAD + "main(['materialize_reshape_zero'])\n"
+        return HEAD + "main(['materialize_reshape_zero', 'materialize_reshape_literal_zero'])\n"
     if "expand_removable" in n:
         return HEAD + "main(['expand_rank'])\n"
     return None
